@@ -293,27 +293,7 @@ theorem transD_all (hl : ∀ s, (cfg.lower s).length = s.length) : ∀ n, TransA
       | succ m ihm => exact transD_step cfg sfh hl n ih a hw m ihm
     exact level (vw b + vw c) b c (Nat.le_refl _) H h1 h2
 
-/-- The fragment of `C03_trans_alias_partial`, shape only: hereditarily no Unit; Struct (members of any nesting) only with the
-    Struct-from-Hash rule off; the type list of a Tuple fits an int64 length (every Go slice does).  Everything else of the model is
-    inside: the two built-in recursive aliases Data and RichData, Iterable, all scalar and collection types. -/
-def Ty.TA (sfh : Bool) (t : Ty) : Prop :=
-  match t with
-  | .unit => False
-  | .struct ms => sfh = false ∧ ∀ m, ∀ (_ : m ∈ ms), Ty.TA sfh m.2.2
-  | .tuple ts _ => ((ts.length : Int) ≤ I64.max) ∧ ∀ t', ∀ (_ : t' ∈ ts), Ty.TA sfh t'
-  | .array e _ => Ty.TA sfh e
-  | .hash k v _ => Ty.TA sfh k ∧ Ty.TA sfh v
-  | .variant ts => ∀ t', ∀ (_ : t' ∈ ts), Ty.TA sfh t'
-  | .optional t' | .notUndef t' | .sensitive t' | .typ t' | .iterable t' => Ty.TA sfh t'
-  | _ => True
-termination_by t.w
-decreasing_by
-  all_goals simp_wf
-  all_goals (try simp only [Ty.w, Ty.wl, Ty.wm] at *)
-  all_goals first
-    | omega
-    | (have := Ty.w_lt_wl ‹_ ∈ _›; omega)
-    | (have := Ty.w_lt_wm ‹_ ∈ _›; omega)
+/-! `Ty.TA` (the shape fragment of `C03_trans_alias_partial`) is defined in Proofs/LatFrag.lean. -/
 
 /-- a well-formed term of the shape fragment lies in the fragment of the induction -/
 theorem Ty.TA.td : ∀ (n : Nat) (t : Ty), t.w ≤ n → t.TA sfh → Ty.WF cfg t → t.TD sfh := by
